@@ -1170,6 +1170,7 @@ def name_to_class_map(name):
         "z": SigmaZ,
         "h": Hadamard,
         "s": Phase,
+        "sdg": PhaseDagger,
         "p": Phase,
         "cz": CZ,
         "classical x": ClassicalCNOT,
